@@ -129,5 +129,159 @@ theorem large_cut_ply_binary (L : Lex) (be : Bool) (h : Hdr) (hfmt : h.fmt = if 
   rw [plyBin_length be h x hx] at hk ⊢
   simp [plyCutOk, hk]
 
+
+/-! ## PTS text -/
+
+/-- the text of a token-boundary cut: the count line and `j` whole point lines (LF-terminated), then the first `t`
+    tokens of point line `j`, optionally the separating space -/
+def ptsCutText (ctok : Tok) (pls : List (List Tok)) (j t : Nat) (sp : Bool) : List UInt8 :=
+  renderLines ([ctok] :: pls.take j) ++ (joinSp ((pls.getD j []).take t) ++ (if sp then [32] else []))
+
+theorem ptsV_error {r : Except Readers.Err (List PtsPoint)} (h : ∃ e, r = .error e) : ptsV r = none := by
+  obtain ⟨e, rfl⟩ := h; rfl
+
+/-- the complete lines (count line + all point lines) read back as `n` points -/
+theorem ptsV_full (L : Lex) (fpp : Nat) (ctok : Tok) (pls : List (List Tok))
+    (hx : PtsOk L fpp (mkLine [ctok]) (pls.map mkLine)) (bs : List UInt8)
+    (hs : scanLines bs = ([ctok] :: pls).map mkLine) : ptsV (readPts L bs) = some pls.length := by
+  unfold readPts
+  rw [hs, List.map_cons, pts_full L fpp (mkLine [ctok]) (pls.map mkLine) hx]
+  simp [ptsV]
+
+theorem ptsVerdict_none {n fpp j t : Nat} (h : ptsWhole fpp j t < n) : ptsVerdict n fpp j t = none := by
+  simp [ptsVerdict, h]
+
+theorem ptsVerdict_some {n fpp j t : Nat} (h : ¬ ptsWhole fpp j t < n) : ptsVerdict n fpp j t = some n := by
+  simp [ptsVerdict, h]
+
+theorem ptsWhole_ne {fpp j t : Nat} (h : t ≠ fpp) : ptsWhole fpp j t = j := by simp [ptsWhole, h]
+
+theorem ptsWhole_eq (fpp j : Nat) : ptsWhole fpp j fpp = j + 1 := by simp [ptsWhole]
+
+/-- every valid PTS text (count line, `n` point lines of `fpp ≥ 3` clean tokens), every token-boundary cut described by
+    (`j` whole lines, `t` tokens, space) with `ptsCutValid`: the model's verdict is `ptsVerdict n fpp j t` — rejected while
+    fewer whole lines than declared are present, the `n` points otherwise -/
+theorem large_cut_pts_verdict (L : Lex) (fpp : Nat) (ctok : Tok) (pls : List (List Tok))
+    (hc : CleanTok ctok) (hclean : ∀ ts ∈ pls, ∀ t ∈ ts, CleanTok t)
+    (hx : PtsOk L fpp (mkLine [ctok]) (pls.map mkLine))
+    (j t : Nat) (sp : Bool) (hv : ptsCutValid pls.length fpp j t sp = true) :
+    ptsV (readPts L (ptsCutText ctok pls j t sp)) = ptsVerdict pls.length fpp j t := by
+  simp only [ptsCutValid, Bool.and_eq_true, decide_eq_true_eq] at hv
+  obtain ⟨⟨h3, htf⟩, hcase⟩ := hv
+  have hcl1 : ∀ ts ∈ [ctok] :: pls, ∀ x ∈ ts, CleanTok x := by
+    intro ts hts x hx'
+    rcases List.mem_cons.mp hts with rfl | h2
+    · simp only [List.mem_singleton] at hx'; subst hx'; exact hc
+    · exact hclean ts h2 x hx'
+  by_cases hj : j < pls.length
+  · rw [if_pos hj] at hcase
+    have hlen : (pls[j]).length = fpp := by
+      have := (hx.2 (mkLine pls[j]) (by simp; exact ⟨pls[j], List.getElem_mem hj, rfl⟩)).1
+      simpa [mkLine] using this
+    have hg : pls.getD j [] = pls[j] := by simp [List.getD, hj]
+    unfold ptsCutText
+    rw [hg]
+    by_cases htlt : t < fpp
+    · rw [ptsVerdict_none (by rw [ptsWhole_ne (by omega)]; exact hj)]
+      apply ptsV_error
+      by_cases hj1 : 1 ≤ j
+      · exact pts_prefix_bytes L fpp ctok pls hc hclean hx j hj1 hj t htlt sp
+          (by intro hs; subst hs; simp at hcase; omega)
+      · have hj0 : j = 0 := by omega
+        subst hj0
+        have ht0 : t = 0 := by
+          rcases Nat.eq_zero_or_pos t with h | h
+          · exact h
+          · exfalso; simp at hcase; omega
+        have hsp : sp = false := by
+          cases sp
+          · rfl
+          · exfalso; simp at hcase; omega
+        subst ht0; subst hsp
+        have hne : pls ≠ [] := by intro h; subst h; simp at hj
+        have := (pts_count_line_bytes L fpp ctok pls hc hx hne).2.2
+        refine ⟨.short, ?_⟩
+        simpa [renderLines, joinSp] using this
+    · have htE : t = fpp := by omega
+      have hsp : sp = false := by
+        cases sp
+        · rfl
+        · exfalso; simp at hcase; omega
+      have hj1 : 1 ≤ j := by
+        rcases Nat.eq_zero_or_pos j with h | h
+        · exfalso; subst h; simp at hcase; omega
+        · exact h
+      subst hsp
+      rw [htE]
+      have htake : (pls[j]).take fpp = pls[j] := List.take_of_length_le (by omega)
+      have hne : pls[j] ≠ [] := by intro h; rw [h] at hlen; simp at hlen; omega
+      rw [htake]
+      simp only [Bool.false_eq_true, if_false, List.append_nil]
+      by_cases hlast : j + 1 < pls.length
+      · rw [ptsVerdict_none (by rw [ptsWhole_eq]; exact hlast)]
+        exact ptsV_error (pts_prefix_bytes_eol L fpp ctok pls hc hclean hx j hlast hne)
+      · rw [ptsVerdict_some (by rw [ptsWhole_eq]; exact hlast)]
+        apply ptsV_full L fpp ctok pls hx
+        have hcl : ∀ ts ∈ ([ctok] :: pls.take j) ++ [pls[j]], ∀ x ∈ ts, CleanTok x := by
+          intro ts hts
+          rcases List.mem_append.mp hts with h1 | h1
+          · rcases List.mem_cons.mp h1 with rfl | h2
+            · exact hcl1 _ (by simp)
+            · exact hcl1 ts (List.mem_cons_of_mem _ (List.mem_of_mem_take h2))
+          · simp only [List.mem_singleton] at h1; subst h1
+            exact hcl1 _ (List.mem_cons_of_mem _ (List.getElem_mem _))
+        rw [(ply_ascii_bytes_complete _ _ hcl hne).2]
+        have e : ([ctok] :: pls.take j) ++ [pls[j]] = [ctok] :: pls := by
+          have : pls.take (j + 1) = pls := List.take_of_length_le (by omega)
+          rw [List.cons_append, ← List.take_succ_eq_append_getElem hj, this]
+        rw [e]
+  · rw [if_neg hj] at hcase
+    simp only [Bool.and_eq_true, beq_iff_eq, Bool.not_eq_true'] at hcase
+    obtain ⟨⟨hjn, ht0⟩, hsp⟩ := hcase
+    subst hjn; subst ht0; subst hsp
+    rw [ptsVerdict_some (by rw [ptsWhole_ne (by omega)]; omega)]
+    apply ptsV_full L fpp ctok pls hx
+    unfold ptsCutText
+    have := scanLines_render ([ctok] :: pls) hcl1 [] (by simp) (by simp)
+    simpa [joinSp] using this
+
+/-- ... and the compiled oracle (`ptsCutOk`, with the byte position and file length of fixed-width text supplied as
+    they are) holds of it -/
+theorem large_cut_pts (L : Lex) (fpp : Nat) (ctok : Tok) (pls : List (List Tok))
+    (hc : CleanTok ctok) (hclean : ∀ ts ∈ pls, ∀ t ∈ ts, CleanTok t)
+    (hx : PtsOk L fpp (mkLine [ctok]) (pls.map mkLine))
+    (j t : Nat) (sp : Bool) (hv : ptsCutValid pls.length fpp j t sp = true) (clen tw : Nat) :
+    ptsCutOk pls.length fpp clen tw (clen + pls.length * (fpp * (tw + 1))) j t sp (ptsCutPos clen tw fpp j t sp)
+      (ptsV (readPts L (ptsCutText ctok pls j t sp))) =
+    decide (ptsCutPos clen tw fpp j t sp ≤ clen + pls.length * (fpp * (tw + 1))) := by
+  rw [large_cut_pts_verdict L fpp ctok pls hc hclean hx j t sp hv]
+  simp [ptsCutOk, hv]
+
+/-! ## non-vacuity, and the two seeded large-file defects as instances of the compiled predicates -/
+
+/-- a valid two-point PTS text ("2", then two lines "1 2 3") in the shape the PTS theorems quantify over; the cut after
+    one whole line (with its LF) is a valid large-file cut description and is rejected, the complete text is accepted -/
+example : PtsOk goLex 3 (mkLine [[50]]) ([[[49], [50], [51]], [[49], [50], [51]]].map mkLine) ∧
+    CleanTok [50] ∧ ptsCutValid 2 3 1 0 false = true ∧ ptsVerdict 2 3 1 0 = none ∧
+    ptsCutValid 2 3 2 0 false = true ∧ ptsVerdict 2 3 2 0 = some 2 ∧ ptsVerdict 2 3 1 3 = some 2 := by
+  refine ⟨⟨by decide, ?_⟩, ⟨by decide, by decide⟩, by decide, by decide, by decide, by decide, by decide⟩
+  intro l hl
+  simp only [List.map_cons, List.map_nil, List.mem_cons, List.not_mem_nil, or_false, or_self] at hl
+  subst hl; exact ⟨by decide, by decide, by decide⟩
+
+/-- seeded C14-m16 (batched STL read accepts a clean EOF at a batch boundary): 131092 triangles cut at byte
+    84 + 50·65536 answered `ok:65536` — the predicate is false; the verdict the theorems give is an error -/
+example : stlCutOk 131092 6554684 3276884 (some 65536) = false ∧ stlCutOk 131092 6554684 3276884 none = true ∧
+    stlCutOk 131092 6554684 6554684 (some 131092) = true := by decide
+
+/-- seeded C14-m17 (PTS completeness check against the capped allocation hint): 131101 declared points of 7 fields cut
+    after 100000 whole lines (the last without its LF) answered `ok:100000` — false; an error is what is proved -/
+example : ptsCutOk 131101 7 7 7 7341663 99999 7 false 5600006 (some 100000) = false ∧
+    ptsCutOk 131101 7 7 7 7341663 99999 7 false 5600006 none = true ∧
+    ptsCutOk 131101 7 7 7 7341663 131101 0 false 7341663 (some 131101) = true := by decide
+
+example : splatCutOk 131107 4195424 2097152 65536 false = true ∧ splatCutOk 131107 4195424 2097153 65536 true = true ∧
+    splatCutOk 131107 4195424 2097152 65535 false = false := by decide
+
 end C14
 end PolyVerif
